@@ -139,10 +139,22 @@ func (s *Spec) Productions() []*grammar.Production {
 	return prods
 }
 
+// recoverTableBuilder turns a panic of a parsing table builder into the error of the calling method.
+// A conflict that involves accepting the input (as for a start symbol that derives itself) has no precedence handle,
+// and the table builders panic while comparing it instead of reporting the conflict.
+func recoverTableBuilder(kind string, T **lr.ParsingTable, err *error) {
+	if r := recover(); r != nil {
+		*T, *err = nil, fmt.Errorf("error on building %s parsing table:\n"+
+			"ambiguous grammar: a conflict that involves accepting the input cannot be resolved (%v)", kind, r)
+	}
+}
+
 // SLRParsingTable builds and returns the SLR(1) (Simple LR) parsing table
 // for the grammar and precedences in the spec.
-func (s *Spec) SLRParsingTable() (*lr.ParsingTable, error) {
-	T, err := simple.BuildParsingTable(s.Grammar, s.Precedences)
+func (s *Spec) SLRParsingTable() (T *lr.ParsingTable, err error) {
+	defer recoverTableBuilder("SLR(1)", &T, &err)
+
+	T, err = simple.BuildParsingTable(s.Grammar, s.Precedences)
 	if err != nil {
 		return nil, fmt.Errorf("error on building SLR(1) parsing table:\n%s", err)
 	}
@@ -152,8 +164,10 @@ func (s *Spec) SLRParsingTable() (*lr.ParsingTable, error) {
 
 // LALRParsingTable builds and returns the LALR(1) (Lookahead LR) parsing table
 // for the grammar and precedences in the spec.
-func (s *Spec) LALRParsingTable() (*lr.ParsingTable, error) {
-	T, err := lookahead.BuildParsingTable(s.Grammar, s.Precedences)
+func (s *Spec) LALRParsingTable() (T *lr.ParsingTable, err error) {
+	defer recoverTableBuilder("LALR(1)", &T, &err)
+
+	T, err = lookahead.BuildParsingTable(s.Grammar, s.Precedences)
 	if err != nil {
 		return nil, fmt.Errorf("error on building LALR(1) parsing table:\n%s", err)
 	}
@@ -163,8 +177,10 @@ func (s *Spec) LALRParsingTable() (*lr.ParsingTable, error) {
 
 // GLRParsingTable builds and returns the GLR(1) (Canonical LR a.k.a. Generalized LR) parsing table
 // for the grammar and precedences in the spec.
-func (s *Spec) GLRParsingTable() (*lr.ParsingTable, error) {
-	T, err := canonical.BuildParsingTable(s.Grammar, s.Precedences)
+func (s *Spec) GLRParsingTable() (T *lr.ParsingTable, err error) {
+	defer recoverTableBuilder("GLR(1)", &T, &err)
+
+	T, err = canonical.BuildParsingTable(s.Grammar, s.Precedences)
 	if err != nil {
 		return nil, fmt.Errorf("error on building GLR(1) parsing table:\n%s", err)
 	}
